@@ -353,16 +353,19 @@ prop(
     "C13",
     level="other",
     design_ref="DESIGN.md section 3, C13",
-    groups=[(["./plugin/action/mask"], r"^\(\*Mask\)\.(maskValue|maskSection)$")],
-    canaries=[("./plugin/action/mask", "replay/C17/zz_replay_c17_test.go", "TestVerifReplayC17Tail")],
+    groups=[(["./plugin/action/mask"], r"^\(\*Mask\)\.(maskValue|maskSection)$"),
+            (["./plugin/input/k8s"], r"^\(\*MultilineAction\)\.(Do|resetLogBuf)$"),
+            (["./plugin/action/join", "./pipeline"], r"^\(\*Plugin\)\.(Do|flush|isNextOK)$")],
+    canaries=[("./plugin/action/mask", "replay/C17/zz_replay_c17_test.go", "TestVerifReplayC17Tail"), ("./plugin/input/k8s", "replay/C13/zz_replay_c13_test.go", "TestVerifReplayC13")],
     known_canaries=[("./plugin/action/mask", "replay/C17/zz_replay_c17_test.go", "TestVerifReplayC17Order")],
     claim=(
-        "No-panic of the index / slice arithmetic on event bytes in the action code brought under contract so far: mask.maskValue and maskSection (every index into the submatch vector and every slice of the value, for all values and all validated group lists). "
-        "One fix (tail copied from -1) and one open known finding (nested / out-of-order groups) came out of it."
+        "No-panic of the index / slice arithmetic on event bytes in the action code brought under contract so far: mask.maskValue and maskSection (every index into the submatch vector and every slice of the value, for all values and all validated group lists), "
+        "the k8s multiline action (every slice of the escaped log fragment, for every event content - empty string, non-string value, fragments shorter than the newline marker - under the state invariant 1 <= len(buffer) <= max_event_size-2 which Do itself preserves), "
+        "and the join action's Do / flush (its two Panicf guards are the only exits; the single-step table is proved under C15). Two fixes (mask tail, k8s multiline) and one open known finding (mask: nested / out-of-order groups) came out of it."
     ),
     undecided=[
         "the full statement (27 plugins x every accepted configuration x every JSON event, result still well-formed JSON) lives in insane-json's mutable node graph (third-party): not applicable to contracts on file.d code",
-        "k8s multiline, convert_utf8_bytes, hash, rename, json_extract index arithmetic: not yet under contract",
+        "convert_utf8_bytes, hash, rename, json_extract index arithmetic: not yet under contract; max_event_size of 1 or 2 with the k8s multiline action is outside the contract (requires)",
         "stateful sequences of events",
     ],
     assumptions=["as C17"],
@@ -408,4 +411,24 @@ prop(
         "that the min-offset scan visits every saved stream (Go map iteration is not modelled)",
     ],
     assumptions=["SliceMap.Get/Set, os.File.Stat/Seek behave as their callee clauses", "initJobOffset runs on a job that is not published yet (exclusive access stands for the job lock)"],
+)
+
+prop(
+    "C15",
+    level="other",
+    design_ref="DESIGN.md section 3, C15",
+    groups=[(["./plugin/action/join", "./pipeline"], r"^(\(\*Plugin\)\.(Do|flush|isNextOK)|\(\*processor\)\.(processEvent|Propagate|doActions))$"),
+            (["./plugin/input/k8s"], r"^\(\*MultilineAction\)\.(Do|resetLogBuf)$")],
+    claim=(
+        "Single-step contracts of multi-line reassembly, for every value and every classification outcome (start / continue tests are uninterpreted): the join action's Do follows the table "
+        "time-out -> flush, Discard; field absent -> flush if joining, Pass; start line -> flush if joining, hold this event, buffer = value, Hold; joining and continuing -> Collapse, buffer += value iff max_event_size == 0 or len(buffer) < it; otherwise flush if joining, Pass; "
+        "flush propagates exactly the held event once and leaves the plugin idle; the invariant isJoining == (initial != nil) is preserved; isNextOK applies negate to the regexp path only; "
+        "the processor takes the next event after Hold / Collapse from the same stream, and Propagate continues a held event at the next action; the k8s multiline action keeps its buffer invariant and never slices out of range."
+    ),
+    undecided=[
+        "maximal-run semantics over whole event sequences (an induction over the single-step contracts, on paper in DESIGN.md), several processors, stream time-out placement",
+        "join_template's matchers; the k8s multiline buffering table beyond safety (isEnd / shouldSplit / skip / cut-off decisions)",
+        "that the flushed event's field is set to the buffer goes through insane-json (MutateToString): abstracted",
+    ],
+    assumptions=["regexp matching and insane-json calls are abstracted (pure / preserving the plugin state)"],
 )
